@@ -212,6 +212,14 @@ func (ks *KeyStorage) UnmarshalBinary(data []byte) error {
 }
 
 func (ks *KeyStorage) verifyKeySlots(masterKey []byte) error {
+	// a slot with an empty encrypted key contributes nothing to the HMAC, so it could be added
+	// to the storage without being noticed: such a slot is never created by the key storage itself
+	for slotID, slot := range ks.underlying.GetKeySlots() {
+		if len(slot.GetEncryptedKey()) == 0 {
+			return xerrors.NewTaggedf[HMACMismatchTag]("key storage slot '%s' is empty, please verify key storage integrity", slotID)
+		}
+	}
+
 	if subtle.ConstantTimeCompare(ks.hashSlots(masterKey), ks.underlying.GetKeysHmacHash()) == 0 {
 		return xerrors.NewTaggedf[HMACMismatchTag]("key storage HMAC mismatch, please verify key storage integrity")
 	}
